@@ -455,3 +455,28 @@ func AssignedObjs(info *types.Info, n ast.Node) []types.Object {
 	}
 	return out
 }
+
+// Reaches reports whether node b can execute after node a on some path.
+func (c *CFG) Reaches(a, b NodeRef) bool {
+	if a.B == b.B && a.I < b.I {
+		return true
+	}
+	seen := map[*cfg.Block]bool{}
+	var stack []*cfg.Block
+	for _, s := range a.B.Succs {
+		stack = append(stack, s)
+	}
+	for len(stack) > 0 {
+		x := stack[len(stack)-1]
+		stack = stack[:len(stack)-1]
+		if seen[x] || !x.Live {
+			continue
+		}
+		seen[x] = true
+		if x == b.B {
+			return true
+		}
+		stack = append(stack, x.Succs...)
+	}
+	return false
+}
